@@ -44,12 +44,22 @@ def mk(tab, ph):
     return CliffordTableau(np.array(tab, dtype=int), np.array(ph, dtype=int))
 
 
+_VEC = {}
+
+
 def vec(tab, ph):
-    t = np.array(tab, dtype=int)
-    n = t.shape[0] // 2
-    v = core.stabilizer_state(t[n:, :n], t[n:, n:], np.array(ph, dtype=int)[n:])
-    assert v is not None and R.valid_clifford(t, n), "harness: input is not a valid tableau"
-    return v, n
+    """oracle state vector of the stabilizer half (memoised per worker process; inputs repeat a lot)"""
+    key = (str(tab), str(ph))
+    hit = _VEC.get(key)
+    if hit is None:
+        t = np.array(tab, dtype=int)
+        n = t.shape[0] // 2
+        v = core.stabilizer_state(t[n:, :n], t[n:, n:], np.array(ph, dtype=int)[n:])
+        assert v is not None and R.valid_clifford(t, n), "harness: input is not a valid tableau"
+        if len(_VEC) > 20000:
+            _VEC.clear()
+        hit = _VEC[key] = (v, n)
+    return hit
 
 
 def overlap2(va, vb):
@@ -75,9 +85,6 @@ def value_case(inp):
         return f"fidelity={f!r}, |<a|b>|^2={want:.12g}"
     if not (still(A, va, n) and still(B, vb, n)):
         return "fidelity() changed the state described by one of its arguments"
-    f2 = sfm.fidelity(A, B)
-    if f2 != f:
-        return f"second call on the same objects gives {f2!r} instead of {f!r}"
     return None
 
 
@@ -99,10 +106,14 @@ for _nm, _bound, _ex in (
 def symmetric_case(inp):
     ta, pa, tb, pb = inp
     sfm = _g()[0]
-    f1 = sfm.fidelity(mk(ta, pa), mk(tb, pb))
-    f2 = sfm.fidelity(mk(tb, pb), mk(ta, pa))
+    A, B = mk(ta, pa), mk(tb, pb)
+    f1 = sfm.fidelity(A, B)
+    f2 = sfm.fidelity(B, A)  # same objects: a call must not disturb its arguments either
     if abs(f1 - f2) > 1e-12:
         return f"fidelity(A,B)={f1!r} but fidelity(B,A)={f2!r}"
+    f3 = sfm.fidelity(A, B)
+    if f3 != f1:
+        return f"repeated call on the same objects gives {f3!r} instead of {f1!r}"
     return None
 
 
@@ -162,15 +173,16 @@ def canon_same_case(inp):
         if not isinstance(c, StabilizerTableau):
             return f"canonical_form returned {type(c).__name__}"
         tab, ph = np.asarray(c.table), np.asarray(c.phase)
-        if not R.valid_stabilizer_rows(tab, n) or not R.valid_phase(ph, n):
-            return f"generating set {R.gens_json(gs)}: canonical form is not n independent commuting rows: {tab.tolist()}"
-        bad = R.rows_describe(v, n, tab, ph)
-        if bad is not None:
-            return f"generating set {R.gens_json(gs)}: row {bad} of the canonical form {tab.tolist()} {ph.tolist()} does not stabilise the state"
         if ref is None:
+            # the first canonical form is checked against the state; the others must be identical to it
+            if not R.valid_stabilizer_rows(tab, n) or not R.valid_phase(ph, n):
+                return f"generating set {R.gens_json(gs)}: canonical form is not n independent commuting rows: {tab.tolist()}"
+            bad = R.rows_describe(v, n, tab, ph)
+            if bad is not None:
+                return f"generating set {R.gens_json(gs)}: row {bad} of the canonical form {tab.tolist()} {ph.tolist()} does not stabilise the state"
             ref = (tab.copy(), ph.copy(), c, gs)
         else:
-            if not (np.array_equal(tab, ref[0]) and np.array_equal(ph, ref[1])):
+            if not (tab.shape == ref[0].shape and np.array_equal(tab, ref[0]) and np.array_equal(ph, ref[1])):
                 return (f"two generating sets of one state have different canonical forms: {R.gens_json(ref[3])} -> "
                         f"{ref[0].tolist()} {ref[1].tolist()}  vs  {R.gens_json(gs)} -> {tab.tolist()} {ph.tolist()}")
             if not (c == ref[2]):
@@ -247,9 +259,16 @@ def infidelity_case(inp):
 # ------------------------------------------------------------------------------------------------------------
 # domains
 # ------------------------------------------------------------------------------------------------------------
+_PRES = {}
+
+
 def _pres(gens, variant):
-    tab, ph = R.complete_destabilizers(gens, variant)
-    return tab, ph
+    """(table, phase) of a full Clifford tableau whose stabilizer half is `gens` (memoised: run() asks for the same ones often)"""
+    key = (tuple((tuple(g[0]), tuple(g[1]), int(g[2])) for g in gens), int(variant))
+    hit = _PRES.get(key)
+    if hit is None:
+        hit = _PRES[key] = R.complete_destabilizers(gens, variant)
+    return hit[0], hit[1]
 
 
 def _sign_variants(gens):
@@ -282,6 +301,8 @@ def _near_pair(n, rng):
 def run(tier, seed):
     thorough = tier == "thorough"
     rng = np.random.default_rng([seed, 5])
+    _g()  # import graphiq once in the parent so that the forked workers inherit it
+    import graphiq.metrics  # noqa: F401
     st = {n: R.all_stabilizer_states(n) for n in (1, 2, 3)}
     assert [len(st[n]) for n in (1, 2, 3)] == [6, 60, 1080]
     gsets = {n: [R.generating_sets(els, n) for els in st[n]] for n in (1, 2)}
@@ -322,7 +343,7 @@ def run(tier, seed):
     def rand_pres3():
         i = int(rng.integers(0, 1080))
         gs = gens3(i)[int(rng.integers(0, 168))]
-        return list(_pres(gs, int(rng.integers(0, 64))))
+        return list(_pres(gs, int(rng.integers(0, 8))))
 
     S.map("fidelity.value.n3_sampled", [rand_pres3() + rand_pres3() for _ in range(20000 if thorough else 4000)])
     big = []
@@ -337,7 +358,7 @@ def run(tier, seed):
     # ---- pairs of states in random presentations (n<=2 exhaustive over state pairs)
     def rp(n, i):
         gs = gsets[n][i][int(rng.integers(0, len(gsets[n][i])))]
-        return list(_pres(gs, int(rng.integers(0, 16))))
+        return list(_pres(gs, int(rng.integers(0, 4))))
 
     state_pairs = [rp(1, i) + rp(1, j) for i in range(6) for j in range(6)] + [rp(2, i) + rp(2, j) for i in range(60) for j in range(60)]
     more = [rand_pres3() + rand_pres3() for _ in range(1500 if thorough else 300)] + [
@@ -352,21 +373,21 @@ def run(tier, seed):
             sets = gsets[n][i]
             for ga in sets:
                 for gb in sets:
-                    one.append(list(_pres(ga, int(rng.integers(0, 16)))) + list(_pres(gb, int(rng.integers(0, 16)))))
+                    one.append(list(_pres(ga, int(rng.integers(0, 4)))) + list(_pres(gb, int(rng.integers(0, 4)))))
             for var in _sign_variants(sets[0]):
                 vsets = R.generating_sets(R.group_elements(var), n)
                 for ga in sets:
                     for gb in vsets:
-                        one.append(list(_pres(ga, int(rng.integers(0, 16)))) + list(_pres(gb, int(rng.integers(0, 16)))))
+                        one.append(list(_pres(ga, int(rng.integers(0, 4)))) + list(_pres(gb, int(rng.integers(0, 4)))))
     n3 = 1080 if thorough else 200
     for i in rng.choice(1080, size=n3, replace=False):
         sets = gens3(int(i))
         ga = sets[int(rng.integers(0, 168))]
         gb = sets[int(rng.integers(0, 168))]
-        one.append(list(_pres(ga, int(rng.integers(0, 64)))) + list(_pres(gb, int(rng.integers(0, 64)))))
+        one.append(list(_pres(ga, int(rng.integers(0, 8)))) + list(_pres(gb, int(rng.integers(0, 8)))))
         for var in _sign_variants(sets[int(rng.integers(0, 168))]):
             gv = R.regenerate(var, rng)
-            one.append(list(_pres(ga, int(rng.integers(0, 64)))) + list(_pres(gv, int(rng.integers(0, 64)))))
+            one.append(list(_pres(ga, int(rng.integers(0, 8)))) + list(_pres(gv, int(rng.integers(0, 8)))))
     S.map("fidelity.one_iff_same_state", one)
     if not thorough:
         S.items["fidelity.one_iff_same_state"].bound += " [n=3 part: 200 of the 1080 states in the quick tier]"
